@@ -26,7 +26,7 @@ LEVEL_TEXT = ("General theorems (all degrees, all sorted knot vectors with any m
               "sampled correspondence of this check.")
 LEVEL_NOTE = "theorems are over the real-number instance of the model; the executable rational instance is what the correspondence runs"
 # functions of the numerical core this property rests on that are also tied by the translator (tie theorems: Proofs/GenTie*.v, restated in Props/)
-TRANSLATED = ["helpers.find_span_linear", "helpers.basis_function", "utilities.evaluate_bounding_box", "evaluators.CurveEvaluator.evaluate", "evaluators.CurveEvaluatorRational.evaluate", "evaluators.SurfaceEvaluator.evaluate", "evaluators.SurfaceEvaluatorRational.evaluate", "evaluators.VolumeEvaluator.evaluate", "evaluators.VolumeEvaluatorRational.evaluate"]
+TRANSLATED = ["helpers.find_span_linear", "helpers.basis_function", "utilities.evaluate_bounding_box", "evaluators.CurveEvaluator.evaluate", "evaluators.CurveEvaluatorRational.evaluate", "evaluators.SurfaceEvaluator.evaluate", "evaluators.SurfaceEvaluatorRational.evaluate", "evaluators.VolumeEvaluator.evaluate", "evaluators.VolumeEvaluatorRational.evaluate", "_operations.find_ctrlpts_curve", "_operations.find_ctrlpts_surface", "linalg.point_distance"]
 TECHNIQUE = "Coq proofs (induction over the evaluators' accumulation loops; partition of unity + non-negativity on closed spans) + exact Fraction oracles"
 
 
